@@ -47,9 +47,13 @@ def run(chk):
     # recorded RNG stream (each blinding role its own draw, DrawCount draws in all), and the RNG must be built from the transcript,
     # one rekey per commitment blinding factor, and 32 bytes of the caller's randomness
     fl = vlib.flags(P=1, R=1, E=1)
-    for i, (curve, kind, n) in enumerate([("toy31723", "honest", 300 if q else 6000), ("toy79", "honest", 200 if q else 4000), ("toy31723", "badwit", 100 if q else 2000)]):
+    for i, (curve, kind, n) in enumerate([("toy31723", "honest", 300 if q else 6000), ("toy31723", "free", 200 if q else 4000), ("toy31723", "badwit", 100 if q else 2000)]):
         name = "%s_%s" % (kind, curve)
         progs = vlib.genprogs(chk, chk.seed + 30 + i, n, vlib.TOY_P[curve], kind, name)
+        for p in progs:
+            # which draw plays which role is found out by intervention on the RNG stream (one disturbed draw per re-run): the specification
+            # demands a bijection between used draws and roles and compares with the reference prover role by role, not position by position
+            p["roles"] = True
         tp, sums = vlib.record(chk, curve, progs, name)
         acc, rej = vlib.validate_traces(chk, tp, curve, flags=fl)
         for p in progs:
@@ -119,8 +123,9 @@ def run(chk):
              "computed by TLC from the witness and the recorded RNG stream (so every blinding scalar is its own fresh draw of that stream), with the RNG "
              "built as fork + one rekey per commitment blinding + finalize over 32 external bytes; on the 256-bit curves proofs of the same statement "
              "under three external seeds share no component outside FixedComponents and the same seed reproduces the proof. distinct = programs" % ((3, 2) if q else (5, 4)),
-        assumptions=["the order in which the reference prover draws its nonces is that of the reference revision (prover.rs:506-513,585-602,705-709); "
-                     "a revision that only reorders draws would be reported here although it still hides - see DESIGN.md 5 C09",
+        assumptions=["which RNG draw plays which role is determined by intervention (the k-th draw is disturbed through the traced Merlin copy and the "
+                     "first group of commitments that moves names its role); the order of the draws is therefore not assumed. Runs whose roles cannot "
+                     "be told apart (two generators coincide on the toy group; a disturbed value rejected by the sampler) are not judged",
                      "nonces are recovered by replaying arkworks' UniformRand over the recorded transcript-RNG output"])
 
 
